@@ -128,7 +128,38 @@ def local_raising_terms(fv, before: Optional[int]):
         if unknown_ctrl:
             continue
         for term in dnf(rt, pol_raise):
-            out.append((ctrl + term, n, cls))
+            full = _drop_static(ctrl + term)
+            if full is not None:
+                out.append((full, n, cls))
+    return out
+
+
+def _static_truth(a: "Atom") -> Optional[bool]:
+    """truth value of an atom that compares constants (left over when a helper's parameter was bound to a literal)"""
+    e = a.expr
+    if isinstance(e, ast.Compare) and len(e.ops) == 1 and isinstance(e.left, ast.Constant) and isinstance(e.comparators[0], ast.Constant):
+        x, y, op = e.left.value, e.comparators[0].value, e.ops[0]
+        try:
+            v = {ast.Is: x is y, ast.IsNot: x is not y, ast.Eq: x == y, ast.NotEq: x != y}.get(type(op))
+            if v is None and isinstance(op, (ast.Lt, ast.LtE, ast.Gt, ast.GtE)):
+                v = {ast.Lt: x < y, ast.LtE: x <= y, ast.Gt: x > y, ast.GtE: x >= y}[type(op)]
+        except TypeError:
+            return None
+        return None if v is None else (v == a.pol)
+    if isinstance(e, ast.Constant) and isinstance(e.value, (bool, int, str, type(None))):
+        return bool(e.value) == a.pol
+    return None
+
+
+def _drop_static(term):
+    """a conjunction without its statically true atoms; None if one atom is statically false (the term never holds)"""
+    out = []
+    for a in term:
+        t = _static_truth(a)
+        if t is False:
+            return None
+        if t is None:
+            out.append(a)
     return out
 
 
@@ -164,8 +195,9 @@ def raising_terms(fv, before: Optional[int], exc: str = "ValueError", _depth: in
         if mapping is None:
             continue
         for term, n, cls in raising_terms(gv, None, exc, _depth + 1):
-            new_term = [Atom(fv._substitute(a.expr, mapping, g.short), a.pol) for a in term]
-            out.append((new_term, fv.cfg.nodes[cs.node], cls))
+            new_term = _drop_static([Atom(fv._substitute(a.expr, mapping, g.short), a.pol) for a in term])
+            if new_term is not None:
+                out.append((new_term, fv.cfg.nodes[cs.node], cls))
     return out
 
 
